@@ -1,7 +1,7 @@
 (* PureSupport.v -- the vocabulary the translated functions of gen/Pure.v are written in (no proofs):
    an action as the code builds it (tracepoint id, condition, the CONFIG DICT as an association list, kind),
    and how the model's description of an action (TriggerTable.adesc) is read off that dict. *)
-From Deep Require Import Base Config Limiter Cond Match TriggerTable Attrs.
+From Deep Require Import Base Config Limiter Cond Match TriggerTable Attrs ConfigSvc.
 
 Inductive dval := DStr (s : str) | DOpt (o : option str) | DList (l : list str) | DMetrics (n : nat).
 Record gaction := mk_action { ga_tp : str; ga_cond : option str; ga_cfg : list (str * dval); ga_kind : akind }.
@@ -56,3 +56,20 @@ Definition od_set (it : list (str * cval)) (k : str) (v : cval) : list (str * cv
    dictionary operation: Attrs.key_ok, tied by correspondence) *)
 Definition clean_attribute (k : str) (v : val) (limit : option Z) : option cval :=
   clean (option_map Z.to_nat limit) (KStr k) v.
+
+(* TaskHandler.submit_task(update_listeners, ts, old_hash, current_hash, old_config, new_config): one more pending task,
+   carrying the configuration it was handed (ConfigSvc.task) *)
+Definition submit_task (pending : list task) (_ : unit) (_ : Z) (_ _ : option nat) (_ : option cfg) (new_config : cfg) : list task :=
+  pending ++ [{| tk_captured := new_config |}].
+(* what the handler's listener does with a delivery (tied to the translated TracepointHandlerUpdateListener.config_change
+   / TriggerHandler.new_config in TieService.v): the handler acts on the list it is handed *)
+Definition deliver (installed : cfg) (_ : Z) (_ _ : option nat) (_ : option cfg) (new_config : cfg) : cfg := new_config.
+
+(* registrations: build_trigger's answer for the registration at hand is a parameter (an interpretable tracepoint, or None);
+   uuid4 handles are opaque tokens handed in by the environment (assumed fresh: ConfigSvc.next_handle) *)
+Definition interp_built (b : option nat) (_ : nat) (_ _ _ _ _ : unit) : option nat := b.
+Fixpoint find_index {A} (f : A -> bool) (l : list A) : option nat :=
+  match l with
+  | [] => None
+  | x :: r => if f x then Some O else option_map S (find_index f r)
+  end.
